@@ -23,7 +23,7 @@ func init() {
 	mon.Register(&mon.Property{
 		ID:    "C17",
 		Level: "exploration",
-		Rule: "seeded cases = (body bytes 0..3*4096+1 biased to buffer boundaries; one case in 250 has a body of 32 KiB+1 .. 70 KiB, handed out whole or in pieces of 1000..40000 bytes) x (scripted underlying stream: per-call chunk sizes incl. runs of <=50 zero-length reads, data+EOF or data+error in one call, " +
+		Rule: "seeded cases = (body bytes 0..3*4096+1 biased to buffer boundaries; one case in 250 has a body of 32 KiB+1 .. 70 KiB, handed out whole or in pieces of 1000..40000 bytes) x (scripted underlying stream, one in 8 also an io.WriterTo: per-call chunk sizes incl. runs of <=50 zero-length reads, data+EOF or data+error in one call, " +
 			"scripted error before/after any byte, optional Close error; or nil Body; or http.NoBody) x (Content-Length: positive with/without header, header \"0\" or another spelling of zero (\"00\", \" 0\", \"000\") with field 0, absent (0, no header), -1) x " +
 			"(method POST, or GET/HEAD/DELETE/OPTIONS/PUT/PATCH/TRACE, lower- or mixed-case, or empty; TransferEncoding nil or [chunked] when no length is declared: the expected answer depends on neither) x " +
 			"(operation sequence of 1..12 ops over HasBody, Read(n) n in {0,1,7,4096,10000}, Close, and W = drain with io.Copy into a plain io.Writer (uses the body's WriteTo if it has one)), followed by a fixed tail: drain to the terminal condition, Close, one read after close, second Close. " +
@@ -40,6 +40,8 @@ func init() {
 			"a request that came with a body stream and has request.Body == nil after HasBody is a violation (body-dropped): the stream is no longer intact for the caller; for requests that came with a nil Body nothing is read or closed",
 			"io.Copy from the body must deliver exactly the undelivered bytes and return nil for a stream that ends with io.EOF, the scripted error otherwise; after Close it must deliver nothing and must not end cleanly while bytes are undelivered",
 			"a Read that returns (0,nil) for a non-empty buffer is tolerated (io.Reader allows it) as long as the terminal condition arrives within the bounded drain",
+			"STRICTER THAN THE STATEMENT (the monitor's reading, signature suffix /stricter-than-statement): the underlying stream must not be closed before the caller closes the body. The statement only says that closing the body closes the underlying stream exactly once; a library that closes the stream itself when it meets the end and does not forward the later Close would still satisfy that clause. The check is kept because a stream closed under an open body fails the reads the caller still makes; triage such an alarm as a reading, not as a clause",
+			"one stream in 8 also implements io.WriterTo (as io.NopCloser over a *bytes.Reader does), handing out the same scripted bytes and terminal condition: io.Copy from a body that forwards WriteTo must deliver what Read would",
 		},
 		MinNontrivial: 2000,
 		Run:           run,
@@ -76,7 +78,7 @@ type Regen struct {
 // Case is one request, one stream script and one operation sequence.
 type Case struct {
 	Regen         *Regen   `json:"regen,omitempty"`
-	BodyKind      string   `json:"body_kind"` // stream | nil | nobody
+	BodyKind      string   `json:"body_kind"` // stream | stream-wt (the stream is an io.WriterTo too) | nil | nobody
 	Body          mon.Q    `json:"body"`
 	Stream        Script   `json:"stream"`
 	ContentLength int64    `json:"content_length"`
@@ -156,6 +158,36 @@ func (s *stream) Close() error {
 	return nil
 }
 
+// wtStream is the scripted stream with a WriteTo of its own (what io.NopCloser gives over a *bytes.Reader): it
+// writes what Read would deliver, by the same script, and ends with nil for io.EOF or with the scripted error.
+type wtStream struct {
+	*stream
+	writeTos int
+	buf      [512]byte
+}
+
+func (s *wtStream) WriteTo(w io.Writer) (int64, error) {
+	s.writeTos++
+	var total int64
+	for guard := 0; guard < 1<<20; guard++ {
+		n, err := s.stream.Read(s.buf[:])
+		if n > 0 {
+			k, werr := w.Write(s.buf[:n])
+			total += int64(k)
+			if werr != nil {
+				return total, werr
+			}
+		}
+		if err == io.EOF {
+			return total, nil
+		}
+		if err != nil {
+			return total, err
+		}
+	}
+	return total, io.ErrNoProgress
+}
+
 // ---- execution + oracle ----
 
 type finding struct{ sig, detail string }
@@ -228,6 +260,8 @@ func exec(c *Case) (fs []finding, inf info) {
 	var rest []byte
 	var term error = io.EOF
 	var st *stream
+	var wt *wtStream
+	var bare io.ReadCloser // the body the request came with
 	rqc := reqClass(c)
 	method := http.MethodPost
 	if c.Method != nil {
@@ -254,6 +288,12 @@ func exec(c *Case) (fs []finding, inf info) {
 		sc := c.Stream
 		st = &stream{data: body, term: term, sc: &sc}
 		req.Body = st
+		if c.BodyKind == "stream-wt" {
+			wt = &wtStream{stream: st}
+			req.Body = wt
+			cls("underlying-stream-implements-writeto")
+		}
+		bare = req.Body
 	}
 	total := len(rest)
 	declaredPositive := c.ContentLength > 0
@@ -477,7 +517,7 @@ func exec(c *Case) (fs []finding, inf info) {
 		if st == nil {
 			return
 		}
-		if b, ok := req.Body.(*stream); ok && b == st {
+		if req.Body == bare {
 			directCloses++
 		} else {
 			wrappedCloses++
@@ -505,7 +545,8 @@ func exec(c *Case) (fs []finding, inf info) {
 		}
 		if got := st.closes - directCloses; got > 0 {
 			earlyReported = true
-			add("underlying-closed-before-body-close/"+clc, "after %s the underlying stream had been closed %d time(s) although Close was never called on the request body; trace [%s]", after, got, trace)
+			// the monitor's reading, not a clause of the statement (see the assumptions): the suffix says so
+			add("underlying-closed-before-body-close/"+clc+"/stricter-than-statement", "after %s the underlying stream had been closed %d time(s) although Close was never called on the request body (monitor's reading: the statement only demands one close of the stream once the body is closed); trace [%s]", after, got, trace)
 		}
 	}
 
@@ -589,6 +630,9 @@ func exec(c *Case) (fs []finding, inf info) {
 	if st != nil {
 		if st.readsAfterClose > 0 {
 			cls("underlying-read-after-close")
+		}
+		if wt != nil && wt.writeTos > 0 {
+			cls("underlying-writeto-called")
 		}
 	}
 	if !declared {
@@ -686,6 +730,9 @@ func minimise(c *Case, sig string) *Case {
 	// request shape (a signature that names the method or the transfer encoding keeps them)
 	try(func(d *Case) { d.Method = nil })
 	try(func(d *Case) { d.TransferEncoding = nil })
+	if cur.BodyKind == "stream-wt" {
+		try(func(d *Case) { d.BodyKind = "stream" })
+	}
 	// stream script
 	try(func(d *Case) { d.Stream.Chunks = nil })
 	try(func(d *Case) { d.Stream.Tail = 0 })
@@ -717,6 +764,9 @@ func minimise(c *Case, sig string) *Case {
 
 func fingerprint(c *Case) string {
 	h := fnv.New64a()
+	if c.BodyKind == "stream-wt" {
+		fmt.Fprint(h, "wt|")
+	}
 	fmt.Fprintf(h, "%d|%v|%d|%d|%v|%v|%s|%s", len(c.Body), c.Stream.Chunks, c.Stream.Tail, c.Stream.ErrAt, c.Stream.TermWithData, c.Stream.CloseErr, clClass(c), strings.Join(c.Ops, ","))
 	return strconv.FormatUint(h.Sum64(), 16)
 }
@@ -935,6 +985,10 @@ func genCase(r *rand.Rand) *Case {
 		// chunked: net/http declares no length then (field -1 on the server side, 0 on a request
 		// built by hand)
 		c.TransferEncoding = []string{"chunked"}
+	}
+	// one stream in 8 has a WriteTo of its own
+	if c.BodyKind == "stream" && r.Intn(8) == 0 {
+		c.BodyKind = "stream-wt"
 	}
 	return c
 }
